@@ -1,6 +1,31 @@
 import SigpyVerif.Model.Py
 import SigpyVerif.Model.Proto
+import SigpyVerif.Model.C06
 namespace SigpyVerif.Drv.C06
+open SigpyVerif SigpyVerif.Proto SigpyVerif.C06
+
+def ratToFloat (r : Rat) : Float := Float.ofInt r.num / Float.ofNat r.den
+
 /-- protocol handler for property C06 (tokens after the property id). -/
-def handle (_toks : List String) : String := "err bad-op"
+def handle (toks : List String) : String :=
+  let getR (k : String) := (kv toks k).bind parseRat?
+  let getI (k : String) := (kv toks k).bind parseInt?
+  match toks.head? with
+  | some "formulas" =>
+    -- one axis: os length (three sites), scale, shift, apodisation centre
+    match getR "os", getI "n" with
+    | some os, some n =>
+      s!"ok {Gen.oversampLen os n} {Gen.apodOsLen os n} {fmtRat (Gen.scaleFactor os n)} {Gen.scaleShift os n} {Gen.apodCentre n}"
+    | _, _ => "err bad-op"
+  | some "scalecoord" =>
+    match getR "os", getI "n", (kv toks "c").bind parseRatList? with
+    | some os, some n, some cs => s!"ok {fmtRatList (cs.map (Gen.scaleCoord os n))}"
+    | _, _, _ => "err bad-op"
+  | some "consts" =>
+    match getR "os", (kv toks "shape").bind parseIntList?, getR "width" with
+    | some os, some shape, some w =>
+      let (a, b, c, d) := constsF shape os (ratToFloat w)
+      s!"ok {fmtIntList (osShape os shape)} {a.toBits.toNat} {b.toBits.toNat} {c.toBits.toNat} {d.toBits.toNat}"
+    | _, _, _ => "err bad-op"
+  | _ => "err bad-op"
 end SigpyVerif.Drv.C06
